@@ -17,7 +17,7 @@ func init() {
 		Rule: "one case = one generated procedure (INSERT/UPDATE/DELETE/REPLACE/CREATE TABLE/ALTER TABLE on 2..3 files in csv/tsv/json/jsonl/ltsv and 0..2 temporary tables, COMMIT/ROLLBACK at top level and inside blocks, IF/WHILE). It is run by the real binary once undisturbed and then once per (top-level position p, termination kind in {failing statement, EXIT, EXIT 3, TRIGGER ERROR}) and per (statement execution h, signal in {SIGINT,SIGTERM}) delivered exactly before the h-th statement through a hook. " +
 			"Oracle: the procedure dumps every table (SELECT *) before each COMMIT and at its end; with C = number of commits the hook trace shows completed, the disk (re-read by a fresh process) must equal dump C (or the initial files if C=0), files created later must not exist, the untouched file must be byte-identical, and after each ROLLBACK every table must equal the last committed dump. " +
 			"non-trivial = the variant ended the way it was meant to (exit code/signal) after at least one data-changing statement; distinct = (procedure digest, variant).",
-		Quick: 24, Thorough: 400, FloorQuick: 600, FloorThorough: 10000,
+		Quick: 24, Thorough: 800, FloorQuick: 600, FloorThorough: 20000,
 		CaseTimeout: 20 * time.Minute,
 		Assumptions: []string{"NULL and empty text coincide in the comparison (CSV/TSV/LTSV spell both the same)", "a signal delivered while the final implicit COMMIT is running may legally leave either all-old or all-new state; signals are injected before statements, never inside that commit (C11 walks the commit points)"},
 		Fn:          c01Case,
